@@ -43,7 +43,7 @@ class Builder:
         self.rnd = random.Random(seed)
 
     def enc(self, ver, p, pay, lim=0, rpi=1, prefill=0, **kw):
-        v = dict(i=len(self.vecs), op="enc", ver=ver, p=p, pay=pay, lim=lim, rpi=rpi, prefill=prefill, prop=self.prop)
+        v = dict(i=len(self.vecs), op="enc", ver=ver, p=p, pay=pay, lim=lim, rpi=rpi, prefill=prefill, prop=self.prop, bad=0)
         v.update(kw)
         self.vecs.append(v)
 
@@ -154,6 +154,14 @@ def build_c09(b, deep):
                 b.enc(5, v["p"], v["pay"], lim=lim, rpi=rpi, prefill=3)
         if v["p"]["t"] not in CLIENT_ONLY:
             b.enc(5, v["p"], v["pay"], lim=0, rpi=0, prefill=1)
+    # values the wire format cannot express: a refusal must leave the buffer untouched
+    for ver in (5, 3):
+        pub = dict(t="PUBLISH", dup=0, retain=0, q=0, topic=[97, 47, 98], id=5, psize=3)
+        if ver == 5:
+            pub.update(utf8=0, mei=0, ct=[], rt=[], cd=[], sids=[], alias=0, up=[])
+        for prefill in (0, 3, 50):
+            b.enc(ver, pub, 3, prefill=prefill, bad=1)
+            b.enc(ver, pub, 3, prefill=prefill, bad=1, first=-1, chunk=2)
     return stats
 
 
